@@ -104,6 +104,15 @@ def _cell_set(I, st, fid, bi, a, c, t):
     return UNIT
 
 
+@model('core::mem::replace')
+def _mem_replace(I, st, fid, bi, a, c, t):
+    # mem::replace(&mut place, v): read the old value, store the new one, return the old one
+    lv = target_lv(a[0])
+    old = I.read(st, lv)
+    store(I, st, fid, bi, t, lv, a[1], 'mem::replace')
+    return old
+
+
 @model('core::cell::Cell::<T>::replace')
 def _cell_replace(I, st, fid, bi, a, c, t):
     lv = target_lv(a[0])
